@@ -161,7 +161,7 @@ func c07Ties(r *rand.Rand, n int) Case {
 func init() {
 	register(&Prop{
 		ID:   "C07",
-		Rule: "pairs (L,R) with path-safe keys: R derived from L by 1-4 mutations at any depth (add/remove keys, scalar changes, list changes, kind flips) or independent; each pair diffed 10x (fresh DOMs; Go re-randomises map iteration) and the sequences must be identical; plus tie-heavy pairs (12-40 keys with composite-left / scalar-right, so Delete and Add share a path and an unstable sort would show) and diff.OverlayDocs over 0-3 layers per side. Observable: the exact sequence of (Type, Path, Value, OldValue). Non-trivial: diff has >= 2 modification kinds. Distinct by Gallina term.",
+		Rule: "pairs (L,R) with path-safe keys (a third over sibling keys where one is a prefix of another continued by '-', a digit, '_' or a letter; a sixth with a list of 11-14 items): R derived from L by 1-4 mutations at any depth (add/remove keys, scalar changes, list changes, kind flips) or independent; each pair diffed 10x (fresh DOMs; Go re-randomises map iteration) and the sequences must be identical; plus tie-heavy pairs (12-40 keys with composite-left / scalar-right, so Delete and Add share a path and an unstable sort would show) and diff.OverlayDocs over 0-3 layers per side. Observable: the exact sequence of (Type, Path, Value, OldValue). Non-trivial: diff has >= 2 modification kinds. Distinct by Gallina term.",
 		Corpus: func() []Case {
 			return []Case{
 				c07Diff(map[string]any{"a": 1}, map[string]any{"a": 1}, 3),
@@ -174,6 +174,12 @@ func init() {
 		Gen: func(r *rand.Rand, tier string, idx int) Case {
 			o := defaultOpts()
 			o.keys = []string{"a", "b", "c", "k1", "x-y", "0"}
+			if r.Intn(3) == 0 {
+				// sibling keys one of which is a proper prefix of the other, continued by a character
+				// below "." and "[" ('-' and digits sort before them as bytes: "a-b" < "a.x" < "a[0]" < "a_"):
+				// ordering by whole path differs from a depth-first walk in key order
+				o.keys = []string{"a", "a-b", "a0", "a_", "aB", "a-", "b", "b-1"}
+			}
 			switch idx % 10 {
 			case 8:
 				return c07Ties(r, 12+r.Intn(29))
@@ -181,6 +187,14 @@ func init() {
 				return c07Overlay(r, o)
 			}
 			l := genDoc(r, o)
+			if r.Intn(6) == 0 { // a left-only list of more than ten items: "k[10]" sorts before "k[2]"
+				n := 11 + r.Intn(4)
+				lst := make([]any, n)
+				for i := range lst {
+					lst[i] = i
+				}
+				l[o.keys[r.Intn(len(o.keys))]] = lst
+			}
 			rr := deriveDoc(r, l, o)
 			if r.Intn(5) == 0 {
 				rr = genDoc(r, o)
